@@ -160,6 +160,13 @@ def rule_writer_finder(ck: Check, repo: Repo, folder: Folder) -> None:
     # the block ends at the first line that ends in the closing delimiter - left by `break` or by returning the block there
     ok4 = "text.startswith(cls.MULTI_LINE.start)" in s2 and re.search(
         r"if (line(\.rstrip\(\))?\.endswith\(cls\.MULTI_LINE\.end\)|cls\.MULTI_LINE\.end in line): (end = \w+ )?(break|return )", s2) is not None
+    if not ok4 and "text.startswith(cls.MULTI_LINE.start)" in s2:
+        # the same first-closing-line search as a generator handed to next()
+        ok4 = re.search(r"next\(\(\w+ for \w+, line in enumerate\(lines\) if (line(\.rstrip\(\))?\.endswith\(cls\.MULTI_LINE\.end\)|cls\.MULTI_LINE\.end in line)\)",
+                        s2) is not None
+        if not ok4 and "cls.MULTI_LINE.end" in s2 and not any(isinstance(n, ast.For) for n in ast.walk(cf)):
+            raise AnalysisError("comment_at_first_character: how the closing line of a multi-line block is found could not be read"
+                                " (neither a loop nor a next() generator over the lines)")
     r.instance("multi-line", {"writer_brackets": ok3, "finder_brackets": ok4})
     if not ok3:
         r.violation(f"{CS}._create_comment_multi", "multi-line writer/finder brackets", f"writer={ok3} finder={ok4}", repo.loc(wm))
